@@ -1637,8 +1637,16 @@ func (cs *ClientSession) Prompts(ctx context.Context, params *ListPromptsParams)
 }
 
 // paginate is a generic helper function to provide a paginated iterator.
-func paginate[P listParams, R listResult[T], T any](ctx context.Context, params P, listFunc func(context.Context, P) (R, error), items func(R) []*T) iter.Seq2[*T, error] {
+func paginate[P interface {
+	*E
+	listParams
+}, R listResult[T], T, E any](ctx context.Context, params P, listFunc func(context.Context, P) (R, error), items func(R) []*T) iter.Seq2[*T, error] {
 	return func(yield func(*T, error) bool) {
+		// Every traversal pages with a copy of the params of its own: traversals
+		// of one iterator that overlap in time (a loop nested in another one,
+		// iter.Pull2) must not move each other's cursor.
+		own := *params
+		params := P(&own)
 		// The cursor in params is advanced from page to page. Put the caller's
 		// value back afterwards, so that ranging over the iterator again (or
 		// reusing params) starts where this traversal started, not on its last page.
